@@ -101,15 +101,15 @@ CHECKS["C25"] = ("vcheck", "proptest trees of zone files written to a scratch di
     "Trusts vmodel::zonefile. Flattening is skipped (counted) when the includer's origin is unset at an include, because no directive can reset the origin to 'unset'.", "§4 C25")
 
 _Q = "The library is a generated copy of /repo/src (harness/qshuttle/gen.sh, regenerated on every run) whose only difference is that the `use std::sync / std::thread / std::time` lines of src/thread.rs, src/server/mod.rs and src/server/rrl.rs point at harness/qshuttle/vshim.rs; interleavings are explored at synchronisation operations; schedules are sampled (random + PCT), not enumerated."
-CHECKS["C28"] = ("qshuttle", "randomised schedule exploration (shuttle random + PCT schedulers) of proptest workloads of 2-4 threads issuing identical UDP queries at a rate-limited server; oracle = exact count: full responses = min(requests, rate x window), the rest limited as the slip setting prescribes",
-    "Generated search with shrinking over workloads (threads x bursts, limit 1-6, slip 0/1/2, table size 1/3/64, NOERROR/NXDOMAIN/error streams, optional second stream) x 80-300 schedules each; logical clock frozen so every burst falls within one second; failing schedule stored with the replay file.",
-    _Q, "§4 C28")
+CHECKS["C28"] = ("qshuttle", "two generated searches with one oracle (exact count: full responses = min(requests, rate x window), the rest limited as the slip setting prescribes): (1) OS-thread stress on the normal build - proptest bursts of 2-16 threads x 50-2000 identical UDP queries released by a barrier, generated yields; (2) randomised schedule exploration (shuttle random + PCT) of proptest workloads of 2-4 threads",
+    "Generated search with shrinking. Stress: bursts that take >= 0.9 s are repeated so that every judged burst falls within one second. Shuttle: workloads (threads x bursts, limit 1-6, slip 0/1/2, table size 1/3/64, NOERROR/NXDOMAIN/error streams, optional second stream) x 80-300 schedules each; logical clock frozen; failing schedule printed, replay re-derives it from the workload's seed.",
+    _Q + " The stress part (vcheck C28S) runs first and its numbers are folded into the same evidence file.", "§4 C28")
 CHECKS["C29"] = ("qshuttle", "randomised schedule exploration (shuttle random + PCT schedulers) of the unmodified thread-pool source with condition-variable timeouts that can fire at any scheduling point; proptest workloads (workers, lingering, submitters, shut-down points, injected spawn failure); oracle = ledger invariants over the history of every execution",
     "Generated search with shrinking over workloads x 60-250 schedules each. Ledger: accepted => ran exactly once and had finished when await_shutdown returned; rejected => never ran; nothing runs after await_shutdown returned; submissions begun after a shut-down returned are rejected with ShuttingDown; no deadlock (shuttle's detector), every call returns.",
     _Q + " Executions that hit the 20000-step bound (unfair PCT schedules spinning in the respawn loop after a pool-only shut-down) are abandoned and counted, not judged.", "§4 C29")
 CHECKS["C32"] = ("qshuttle", "randomised schedule exploration (shuttle random + PCT schedulers) of proptest workloads: a swapper replacing catalogs and TSIG key sets while 2-3 threads issue signed/unsigned queries whose every record encodes the catalog generation; oracle = invariant over each response (one generation, inside the [installed-before, begun-by-return] bracket; MAC under the signing generation's key or a consistent BADSIG)",
     "Generated search with shrinking over workloads (2-4 generations, swap order, five query kinds covering answer/authority/additional sections, UDP/TCP) x 60-250 schedules each.",
-    _Q + " TSIG times use the real clock with a one-hour fudge.", "§4 C32")
+    _Q + " TSIG times use the real clock with a one-hour fudge. As for C28, an OS-thread stress on the normal build (vcheck C32S: 2-8 query threads against a swapper installing 3-200 generations, same bracket oracle) runs first in both tiers and is folded into the same evidence file.", "§4 C32")
 
 CHECKS["C30"] = ("vcheck", "proptest batches of framed requests (valid, malformed, response-less) cut into generated segments with generated pauses and pipelined over loopback TCP, plus UDP datagrams from two client sockets, against running blocking and Tokio providers in five configurations; differential against handle_message on an identically configured twin server",
     "Generated search with shrinking; TCP: responses in request order, framed, octet-equal to the twin's, nothing extra, connection closed after the first response-less request (or after the client's EOF), also for batches ending in an incomplete frame; UDP: at most one datagram per request, equal to the twin's, from the server's address, to the socket that asked, not larger than the payload size.",
@@ -129,6 +129,11 @@ def main():
         pid = p['id']
         if pid in CHECKS:
             engine, technique, text, note, ref = CHECKS[pid]
+            fuzzed = {"C01": "fz_server", "C02": "fz_server", "C03": "fz_server", "C08": "fz_server", "C09": "fz_server",
+                      "C14": "fz_name", "C15": "fz_reader", "C24": "fz_zonefile"}
+            if pid in fuzzed:
+                technique += f"; thorough tier: coverage-guided fuzzing (libFuzzer target {fuzzed[pid]}, the same oracle inside the target)"
+                text += f" The committed seed corpus of {fuzzed[pid]} is replayed through the oracle in both tiers; the thorough tier first runs a libFuzzer campaign (ASan, debug assertions; from the seeds and from an empty corpus) whose executions, final-corpus classification and re-judged failures are part of the evidence."
             checks.append({
                 "property_id": pid,
                 "quick_cmd": f"./check {pid} quick",
@@ -155,6 +160,8 @@ def main():
         "engines": [
             {"name": "vcheck", "path": "harness/vchecks", "serves_properties": sorted(k for k,v in CHECKS.items() if v[0]=="vcheck"),
              "kind_free_text": "proptest generators + independent reference models (harness/vmodel), sharded over 16 threads, shrunk failures stored as replay files"},
+            {"name": "fuzz", "path": "harness/fuzz", "serves_properties": ["C01", "C02", "C03", "C08", "C09", "C14", "C15", "C24"],
+             "kind_free_text": "libFuzzer via cargo-fuzz (ASan, debug assertions): four targets whose oracles are the checks' own (vchecks::fuzzglue); thorough tiers run a campaign from the committed seeds and from an empty corpus (scripts/fuzz.sh) before vcheck, which folds the statistics into the evidence and re-judges every reported failure; the committed corpus is replayed in every tier"},
             {"name": "qshuttle", "path": "harness/qshuttle", "serves_properties": sorted(k for k,v in CHECKS.items() if v[0]=="qshuttle"),
              "kind_free_text": "shuttle (randomised schedule exploration, random + PCT) over a generated copy of /repo/src whose std::sync/thread/time imports point at a shim with firing condition-variable timeouts and a logical clock; workloads are proptest values and shrink; failing schedules are stored in the replay file"},
         ],
